@@ -50,8 +50,10 @@ REQUIRED_COUNTERS = [
     "config_roundtrip", "config_roundtrip_diff", "value_survives", "computed_inverse", "computed_seal",
     "computed_rotkh", "xmcd_crc", "xmcd_verify", "cli_template",
 ]
-CASE_TIMEOUT_S = 600
-WATCHDOG_S = {"quick": 1500, "thorough": 7200}
+# wall-clock guards only ever yield "inconclusive"; estimated for 16 idle cores: quick ~40 s (440 CPU-s), thorough ~9 min
+# (8 000 CPU-s) - but the machine is shared and a run has been seen to get 3 % of a core per worker
+CASE_TIMEOUT_S = 1800
+WATCHDOG_S = {"quick": 3600, "thorough": 6 * 3600}
 MAX_JOBS = 16
 
 N_RANDOM = {"quick": 3, "thorough": 10}
